@@ -177,8 +177,10 @@ class Machine:
         o = zoo.gen_origin(r) if r.random() < 0.25 else zoo.NO_ORIGIN
         if k < 0.7:
             return zoo.Leaf(v=r.randint(0, 2), tag=r.choice(["", "t"]), origin=o), "Leaf"
-        if k < 0.85:
+        if k < 0.82:
             return zoo.Leaf2(v=r.randint(0, 1), origin=o), "Leaf2"
+        if k < 0.92:
+            return zoo.Picky(v=r.randint(0, 1), origin=o), "Picky"
         return zoo.Falsy(n=r.randint(0, 1), origin=o), "Falsy"
 
     def op_construct(self):
@@ -348,19 +350,33 @@ class Machine:
         kw = self._changes(x, live)
         fails = r.random() < 0.3
         kids = [self.tok(c) for c in self._kids_after(x, kw)]
+        type_check = False
         if fails:
-            kw[r.choice(["nofield", "cnt", "id"])] = 3
+            # the ways a replace() can fail: unknown field (TypeError), init=False field (ValueError), the node
+            # class' own validation (RuntimeError), runtime type checking (InvalidTypes)
+            route = r.choice(["nofield", "id", "own-validation", "runtime-types"])
+            if route == "own-validation" and isinstance(x, zoo.Picky):
+                kw["v"] = 13
+            elif route == "runtime-types" and any(f.name in ("v", "n") for f in zoo.prop_fields(type(x))):
+                kw["v" if hasattr(x, "v") else "n"] = "not an int"
+                type_check = True
+            else:
+                kw[r.choice(["nofield", "id"]) if not hasattr(x, "cnt") else r.choice(["nofield", "cnt", "id"])] = 3
         v = r.randrange(self.NVARS)
         self.fresh = []
         tx = self.tok(x)
         was_reg = NODE_REGISTRY.get(x.id) is x
         before = dict(NODE_REGISTRY.items())
+        old_tc = pconfig.RUNTIME_TYPE_CHECK
+        pconfig.RUNTIME_TYPE_CHECK = type_check
         try:
             n = x.replace(**kw)
             raised = False
         except Exception:  # noqa
             raised = True
             n = None
+        finally:
+            pconfig.RUNTIME_TYPE_CHECK = old_tc
         if raised:
             after = dict(NODE_REGISTRY.items())
             if not self.frame_fail and (set(before) != set(after) or any(before[k] is not after[k] for k in before)):
